@@ -16,6 +16,7 @@ LEVEL = "other"
 
 
 def check(ctx):
+    ctx.rule("R-C05.4", "statement grammar: every statement form of the reference grammar is accepted and no statement production refuses a token its callee can start with (label / case bodies, pragmas, do, for-declarations ...)")
     ctx.rule("R-C05.1", "statement productions: every slot is filled from the call site / token the reviewed reference names (else binds to the nearest if, bodies are one statement, for-clauses in order, block items appended in source order)")
     ctx.rule("R-C05.2", "switch regrouping is conservative: Case and Default are treated alike in every class test; children are only appended (never inserted, dropped or duplicated)")
     ctx.rule("R-C05.3", "block item / translation unit lists grow only by append/extend in source order")
@@ -74,6 +75,17 @@ def check(ctx):
                 ctx.oblige("R-C05.3", f"{m}: {S.unparse(c)[:40]}", False)
                 ctx.violation("R-C05.3", f"order:{m}:{c.func.attr}", f"{m} uses `{S.unparse(c)[:60]}`: items must be collected in source order by append/extend only", file=px.rel, function=f"CParser.{m}", line=c.lineno)
         ctx.oblige("R-C05.3", f"{m} collects by append/extend", True, nontrivial=False)
+    # ---- R-C05.4: the statement part of the grammar conformance argument (decided by the C01 machinery) --------------------
+    from . import share
+    STMT_NTS = ("statement", "substatement", "labeled_statement", "compound_statement", "block_item", "expression_statement", "selection_statement", "switch_body", "switch_item",
+                "iteration_statement", "jump_statement", "pragma", "for_declaration", "static_assert")
+
+    def stmt_level(f):
+        if f.rule == "R-C01.4":
+            return f.function.replace("CParser.", "") in WCm.STMT or f.function.replace("CParser.", "") in ("_starts_statement",)
+        return any(("start:" + nt) in f.key or (":" + nt + "+") in f.key or (":" + nt + "/") in f.key or ("+" + nt + "/") in f.key or ("^" in f.key and (":" + nt + "^") in f.key) for nt in STMT_NTS)
+    share.borrow(ctx, "C01", ("R-C01.3", "R-C01.4"), "R-C05.4", keep=stmt_level, count=40)
+
     ctx.info["explanation"] = ("def-use wiring of every constructor site, return and append of the 19 statement-level productions and of the switch transform compared with the reviewed reference; "
                                "class-set agreement of the Case/Default tests; per-path append count of the regrouping loop")
     ctx.assumptions += ["equality with an independently built tree on concrete inputs is not executed", "sa/wiring_ref.json was reviewed against C99 6.8"]
